@@ -396,6 +396,9 @@ GuardsClose(st, e) ==
     IN
     {G("closed_once", {"C10", "C12"}, me.closed = 0, NONE),
      G("closed_not_early", {"C10"}, CloserCovers(st, i), NONE),
+     \* a resolution - failed or not - closes nothing: what was constructed on the way stays owned by its scope and is
+     \* disposed when that scope is closed
+     G("resolution_closes_nothing", {"C15"}, st.cur.op \notin {"resolve", "group"}, NONE),
      G("reverse_creation_order", {"C11"},
         \A j \in closedIds : ~(st.inst[j].owner = me.owner /\ st.inst[j].born < me.born /\ st.inst[j].inv # me.inv
                                /\ st.inst[j].inv # 0 /\ me.inv # 0), NONE),     \* inv = 0: instance values are not created by the container
